@@ -519,6 +519,9 @@ impl Sup {
     }
 
     fn run_regressions(&mut self) {
+        if std::env::var("VERIF_SKIP_REGRESSIONS").is_ok() {
+            return; // sensitivity experiments only: shows what the generated search finds on its own
+        }
         let dir = self.a.verif.join("regressions").join(&self.a.prop);
         let mut files: Vec<PathBuf> = match std::fs::read_dir(&dir) {
             Ok(rd) => rd.filter_map(|e| e.ok()).map(|e| e.path()).filter(|p| p.extension().map(|x| x == "json").unwrap_or(false)).collect(),
